@@ -354,7 +354,9 @@ class Wtp:
         self.lua_frame_stack: deque["_LuaTable"] = deque()
         self.project = project
         self.strip_marker_cache: defaultdict[str, int] = defaultdict(int)
-        self.allowed_html_tags: dict[str, HTMLTagData] = ALLOWED_HTML_TAGS
+        # A copy: extension tags of this context must not leak into the
+        # module-level table that every other context starts from.
+        self.allowed_html_tags: dict[str, HTMLTagData] = dict(ALLOWED_HTML_TAGS)
         if extension_tags is not None:
             self.allowed_html_tags.update(extension_tags)
         # Set of HTML tags that need an explicit end tag.
